@@ -22,12 +22,18 @@ CONSTANTS Procs,     \* scheduler processes
           FixF5,     \* TRUE: an unparsable (half written) token file does not kill the observer / the recount
           FixF23,    \* TRUE: a reclaim thread removes the token file while it holds the job's run lock (nobody is starting the
                      \*       job again, the job is not running); FALSE: it removes whatever file has that name when it gets to it
+          FixF26,    \* TRUE: removing a token file that somebody else has just removed is not an error
+          FixF28,    \* TRUE: a process ignores the deletion events that bear the name of a token it holds (a late event about the file
+                     \*       of the same name removed before the token was taken again: same job submitted again)
+          FixF27,    \* TRUE: a process that starts counts the directory again once it watches it (what was removed between the
+                     \*       first count and the watching -- by the reclaim threads the first count started -- went unobserved)
           AddFirst   \* TRUE: a dependency is registered with the token before its first check (what aio_submit does);
                      \* FALSE: the other order, in which a release that falls between the two is lost
 
 VARIABLE wl          \* the workload, fixed by Init: [owner: job -> process that submits it, req: job -> amount, total,
                      \*   totals: the totals with which a process may declare the token again,
-                     \*   resub: the amounts with which a job that has released the token may be submitted again]
+                     \*   resub: the amounts with which a job that has released the token may be submitted again,
+                     \*   late: the processes that start later (CounterToken.__init__ in its two steps: StartCount, StartWatch)]
 Owner == wl.owner
 Req == wl.req
 Total == wl.total
@@ -44,7 +50,8 @@ VARIABLES files,     \* job -> "absent" | "empty" | "written"
           reclaiming, \* process -> jobs whose reclaim thread has decided to delete the token file
           notify,    \* process -> jobs whose dependency is about to be re-checked (aio_notify closures)
           info       \* token.info: [total: what the file says, ptotal: process -> the total it has in memory,
-                     \*              pending: process -> a modification of the file not yet handled, max: largest total so far]
+                     \*              pending: process -> a modification of the file not yet handled, max: largest total so far,
+                     \*              started: process -> "no" | "counted" (first count done, directory not watched yet) | "yes"]
 
 vars == <<files, ipc, cs, alive, obs, avail, cache, watching, pend, jobst, dstat, notify, reclaiming, wl, info>>
 
@@ -59,21 +66,25 @@ Readable == \A j \in Jobs : files[j] # "empty"     \* every token file parses
 InitWith(w) ==
   /\ wl = w
   /\ files = [j \in Jobs |-> "absent"] /\ ipc = "free"
-  /\ cs = [p \in Procs |-> None] /\ alive = [p \in Procs |-> TRUE] /\ obs = [p \in Procs |-> TRUE]
+  /\ cs = [p \in Procs |-> None] /\ alive = [p \in Procs |-> p \notin w.late] /\ obs = [p \in Procs |-> p \notin w.late]
   /\ avail = [p \in Procs |-> Total] /\ cache = [p \in Procs |-> {}] /\ watching = [p \in Procs |-> {}]
   /\ pend = [p \in Procs |-> {}]
   /\ jobst = [j \in Jobs |-> "idle"] /\ dstat = [j \in Jobs |-> "WAIT"]
   /\ notify = [p \in Procs |-> {}] /\ reclaiming = [p \in Procs |-> {}]
-  /\ info = [total |-> w.total, ptotal |-> [p \in Procs |-> w.total], pending |-> [p \in Procs |-> FALSE], max |-> w.total, resub |-> 0]
+  /\ info = [total |-> w.total, ptotal |-> [p \in Procs |-> w.total], pending |-> [p \in Procs |-> FALSE], max |-> w.total, resub |-> 0,
+             started |-> [p \in Procs |-> IF p \in w.late THEN "no" ELSE "yes"]]
 
 (* every live observer is told about a change of the directory (including the process that made it) *)
 Tell(kinds, j) == [p \in Procs |-> IF alive[p] /\ obs[p] THEN pend[p] \cup {<<k, j>> : k \in kinds} ELSE pend[p]]
+
+(* the tokens a process holds, from the end of acquire() to the beginning of release() (CounterToken.own) *)
+Own(p) == {j \in Jobs : Owner[j] = p /\ jobst[j] \in {"holding", "running", "ended", "aborting"}}
 
 Status(p, j) == IF Req[j] <= avail[p] THEN "OK" ELSE "WAIT"
 
 (* ---------------- scheduler side ---------------- *)
 Submit(j) ==
-  /\ alive[Owner[j]] /\ jobst[j] = "idle"
+  /\ alive[Owner[j]] /\ info.started[Owner[j]] = "yes" /\ jobst[j] = "idle"
   /\ jobst' = [jobst EXCEPT ![j] = "submitted"] /\ dstat' = [dstat EXCEPT ![j] = Status(Owner[j], j)]
   /\ UNCHANGED <<files, ipc, cs, alive, obs, avail, cache, watching, pend, notify, reclaiming, wl, info>>
 
@@ -81,11 +92,11 @@ Submit(j) ==
    dependents -- from then on a notification re-checks it -- and checked a first time *)
 Waiting == {"submitted", "registered"}          \* registered with the token, not holding
 SubmitAdd(j) ==
-  /\ alive[Owner[j]] /\ jobst[j] = (IF AddFirst THEN "idle" ELSE "checked")
+  /\ alive[Owner[j]] /\ info.started[Owner[j]] = "yes" /\ jobst[j] = (IF AddFirst THEN "idle" ELSE "checked")
   /\ jobst' = [jobst EXCEPT ![j] = IF AddFirst THEN "registered" ELSE "submitted"]
   /\ UNCHANGED <<files, ipc, cs, alive, obs, avail, cache, watching, pend, dstat, notify, reclaiming, wl, info>>
 SubmitCheck(j) ==
-  /\ alive[Owner[j]] /\ jobst[j] = (IF AddFirst THEN "registered" ELSE "idle")
+  /\ alive[Owner[j]] /\ info.started[Owner[j]] = "yes" /\ jobst[j] = (IF AddFirst THEN "registered" ELSE "idle")
   /\ jobst' = [jobst EXCEPT ![j] = IF AddFirst THEN "submitted" ELSE "checked"] /\ dstat' = [dstat EXCEPT ![j] = Status(Owner[j], j)]
   /\ UNCHANGED <<files, ipc, cs, alive, obs, avail, cache, watching, pend, notify, reclaiming, wl, info>>
 
@@ -151,9 +162,31 @@ RelDelete(p) ==
   /\ cs' = [cs EXCEPT ![p].step = "deleted"]
   /\ UNCHANGED <<ipc, alive, obs, avail, cache, watching, jobst, dstat, notify, reclaiming, wl, info>>
 
+(* the same at the grain of TokenFile.delete(): is_file(), then unlink() -- the reclaim thread of another scheduler can
+   remove the file in between (the trace specification keeps the composed step: the hook is between the two) *)
+RelCheck(p) ==
+  /\ alive[p] /\ cs[p].kind = "rel" /\ cs[p].step = "counted" /\ ipc = p
+  /\ cs' = [cs EXCEPT ![p].step = IF Present(cs[p].job) THEN "checked" ELSE "deleted"]
+  /\ UNCHANGED <<files, ipc, alive, obs, avail, cache, watching, pend, jobst, dstat, notify, reclaiming, wl, info>>
+RelUnlink(p) ==
+  /\ alive[p] /\ cs[p].kind = "rel" /\ cs[p].step = "checked" /\ ipc = p
+  /\ LET j == cs[p].job
+     IN IF Present(j) \/ FixF26
+        THEN /\ files' = [files EXCEPT ![j] = "absent"] /\ pend' = IF Present(j) THEN Tell({"deleted"}, j) ELSE pend
+             /\ cs' = [cs EXCEPT ![p].step = "deleted"]
+             /\ UNCHANGED <<ipc, avail, cache, jobst, notify>>
+        ELSE (* FileNotFoundError out of release(): the locks are given back, the count was already corrected, nobody is notified *)
+             /\ cs' = [cs EXCEPT ![p] = None] /\ ipc' = "free"
+             /\ avail' = [avail EXCEPT ![p] = IF j \in cache[p] THEN @ + Req[j] ELSE @]
+             /\ cache' = [cache EXCEPT ![p] = @ \ {j}]
+             /\ jobst' = [jobst EXCEPT ![j] = "released"]
+             /\ UNCHANGED <<files, pend, notify>>
+  /\ UNCHANGED <<alive, obs, watching, dstat, reclaiming, wl, info>>
+
 (* the taken token is known (cached): the amount comes back, the dependents are notified *)
 RelOk(p) ==
   /\ alive[p] /\ cs[p].kind = "rel" /\ cs[p].step \in {"counted", "deleted"}
+  /\ cs[p].step = "deleted" \/ ~Present(cs[p].job)       \* (the file is removed first, unless somebody else has done it)
   /\ LET j == cs[p].job
      IN /\ avail' = [avail EXCEPT ![p] = IF j \in cache[p] THEN @ + Req[j] ELSE @]
         /\ cache' = [cache EXCEPT ![p] = @ \ {j}]
@@ -192,7 +225,7 @@ OnCreatedOrModified(p, kind, j) ==
 OnDeleted(p, j) ==
   /\ alive[p] /\ obs[p] /\ (StrictEvents => <<"deleted", j>> \in pend[p]) /\ cs[p] = None
   /\ pend' = [pend EXCEPT ![p] = @ \ {<<"deleted", j>>}]
-  /\ IF j \in cache[p]
+  /\ IF j \in cache[p] /\ ~(FixF28 /\ j \in Own(p))        \* (repaired: a token this process holds -- the event is a late one)
      THEN /\ cache' = [cache EXCEPT ![p] = @ \ {j}] /\ avail' = [avail EXCEPT ![p] = @ + Req[j]]
           /\ notify' = IF avail[p] + Req[j] > 0
                        THEN [notify EXCEPT ![p] = @ \cup {k \in Jobs : Owner[k] = p /\ jobst[k] \in Waiting}] ELSE notify
@@ -202,8 +235,10 @@ OnDeleted(p, j) ==
 (* ---------------- reclaim thread: the job has ended, its token file is deleted ---------------- *)
 ReclaimDecide(p, j) ==
   /\ alive[p] /\ (StrictEvents => j \in watching[p])
-  /\ jobst[j] \in {"ended", "released", "aborting", "holding"}                            \* no pid file / process gone
-  /\ jobst[j] # "holding" \/ ~alive[Owner[j]]                                            \* (a live owner starts its job under the job lock)
+  /\ \/ jobst[j] \in {"ended", "released", "aborting", "holding"}                         \* no pid file / process gone
+     \/ info.resub > 0 /\ jobst[j] \in {"idle", "registered", "checked", "submitted"}     \* (submitted again, not yet started again)
+  /\ jobst[j] # "holding" \/ ~alive[Owner[j]] \/ p = Owner[j]     \* (a live owner starts its job under the job lock -- which does
+                                                                    \*  not exclude a thread of the same process: fcntl locks)
   /\ watching' = [watching EXCEPT ![p] = @ \ {j}] /\ reclaiming' = [reclaiming EXCEPT ![p] = @ \cup {j}]
   /\ UNCHANGED <<files, pend, ipc, cs, alive, obs, avail, cache, jobst, dstat, notify, wl, info>>
 
@@ -212,9 +247,13 @@ ReclaimDecide(p, j) ==
 JobLocked(j) == \/ jobst[j] = "running"
                 \/ alive[Owner[j]] /\ (jobst[j] = "holding" \/ (cs[Owner[j]].kind = "acq" /\ cs[Owner[j]].job = j))
 
+(* ... as seen by a thread of process p: the lock its own process holds does not stop it *)
+JobLockedAgainst(p, j) == \/ jobst[j] = "running"
+                          \/ p # Owner[j] /\ alive[Owner[j]] /\ (jobst[j] = "holding" \/ (cs[Owner[j]].kind = "acq" /\ cs[Owner[j]].job = j))
+
 ReclaimDelete(p, j) ==
   /\ alive[p] /\ j \in reclaiming[p]
-  /\ FixF23 => ~JobLocked(j)
+  /\ FixF23 => ~JobLockedAgainst(p, j)
   /\ reclaiming' = [reclaiming EXCEPT ![p] = @ \ {j}]
   /\ files' = [files EXCEPT ![j] = "absent"] /\ pend' = IF Present(j) THEN Tell({"deleted"}, j) ELSE pend
   /\ UNCHANGED <<ipc, cs, alive, obs, avail, cache, watching, jobst, dstat, notify, wl, info>>
@@ -232,6 +271,34 @@ Redeclare(p, n) ==
   /\ watching' = [watching EXCEPT ![p] = @ \cup ({j \in OnDisk : files[j] = "written"} \ cache[p])]
   /\ files' = [j \in Jobs |-> IF files[j] = "empty" THEN "absent" ELSE files[j]]
   /\ UNCHANGED <<ipc, cs, alive, obs, pend, jobst, dstat, notify, reclaiming, wl>>
+
+(* ---------------- a process starts later (CounterToken.__init__) ---------------- *)
+(* first step, under the ipc lock: the directory is counted, every token file found is cached and gets a reclaim thread; the
+   directory is not watched yet: what is removed from now on -- by those very threads when the job has ended already -- is
+   not reported to this process *)
+StartCount(p) ==
+  /\ info.started[p] = "no" /\ ~alive[p] /\ ipc = "free" /\ (Readable \/ FixF5)
+  /\ alive' = [alive EXCEPT ![p] = TRUE]
+  /\ avail' = [avail EXCEPT ![p] = info.total - Sum({j \in OnDisk : files[j] = "written"})]
+  /\ cache' = [cache EXCEPT ![p] = {j \in OnDisk : files[j] = "written"}]
+  /\ watching' = [watching EXCEPT ![p] = {j \in OnDisk : files[j] = "written"}]
+  /\ files' = [j \in Jobs |-> IF files[j] = "empty" THEN "absent" ELSE files[j]]
+  /\ info' = [info EXCEPT !.ptotal[p] = info.total, !.started[p] = "counted"]
+  /\ UNCHANGED <<ipc, cs, obs, pend, jobst, dstat, notify, reclaiming, wl>>
+(* second step: the directory is watched; repaired: and counted again under the ipc lock *)
+StartWatch(p) ==
+  /\ info.started[p] = "counted" /\ alive[p] /\ cs[p] = None
+  /\ obs' = [obs EXCEPT ![p] = TRUE]
+  /\ IF FixF27
+     THEN /\ ipc = "free" /\ (Readable \/ FixF5)
+          /\ avail' = [avail EXCEPT ![p] = info.total - Sum({j \in OnDisk : files[j] = "written"})]
+          /\ cache' = [cache EXCEPT ![p] = {j \in OnDisk : files[j] = "written"}]
+          /\ watching' = [watching EXCEPT ![p] = @ \cup ({j \in OnDisk : files[j] = "written"} \ cache[p])]
+          /\ files' = [j \in Jobs |-> IF files[j] = "empty" THEN "absent" ELSE files[j]]
+          /\ info' = [info EXCEPT !.ptotal[p] = info.total, !.started[p] = "yes"]
+     ELSE /\ info' = [info EXCEPT !.started[p] = "yes"]
+          /\ UNCHANGED <<avail, cache, watching, files>>
+  /\ UNCHANGED <<ipc, cs, alive, pend, jobst, dstat, notify, reclaiming, wl>>
 
 (* on_modified(token.info), observer thread, no lock: the difference with the total in memory is added to the available
    amount; when the token grew, the waiting dependencies are checked again *)
@@ -259,7 +326,8 @@ Next ==
   \/ \E p \in Procs, j \in Jobs, k \in {"acq", "rel"} : Lock(p, k, j)
   \/ \E j \in Jobs, c \in wl.resub : Resubmit(j, c)
   \/ \E p \in Procs : OnInfo(p) \/ \E n \in wl.totals : n # info.total /\ Redeclare(p, n)
-  \/ \E p \in Procs : Recount(p) \/ AcqFail(p) \/ CreateOpen(p) \/ CreateWrite(p) \/ AcqOk(p) \/ RelDelete(p) \/ RelOk(p) \/ Kill(p)
+  \/ \E p \in Procs : StartCount(p) \/ StartWatch(p)
+  \/ \E p \in Procs : Recount(p) \/ AcqFail(p) \/ CreateOpen(p) \/ CreateWrite(p) \/ AcqOk(p) \/ RelCheck(p) \/ RelUnlink(p) \/ RelOk(p) \/ Kill(p)
   \/ \E p \in Procs, j \in Jobs : Recheck(p, j) \/ OnDeleted(p, j) \/ ReclaimDecide(p, j) \/ ReclaimDelete(p, j)
         \/ OnCreatedOrModified(p, "created", j) \/ OnCreatedOrModified(p, "modified", j)
 
@@ -277,10 +345,11 @@ MutualExclusion == \A p \in Procs : cs[p] # None => ipc = p
 (* C09: a token file is only taken away from a job that has ended (or never started because its scheduler died) *)
 ReclaimOnlyAfterEnd == [][\A j \in Jobs : (files[j] = "written" /\ files'[j] = "absent" /\ jobst'[j] = jobst[j]) => jobst[j] # "running"]_vars
 (* C09: observers survive (otherwise releases made by other processes are never noticed) *)
-ObserversSurvive == \A p \in Procs : alive[p] => obs[p]
+ObserversSurvive == \A p \in Procs : (alive[p] /\ info.started[p] = "yes") => obs[p]
 (* C09: at quiescence, a waiting job whose request fits has been told so *)
 Quiescent == /\ \A p \in Procs : cs[p] = None /\ pend[p] = {} /\ notify[p] = {} /\ ~(alive[p] /\ obs[p] /\ info.pending[p])
              /\ \A j \in Jobs : jobst[j] \notin {"registered", "checked"}            \* no submission half-way
+             /\ \A p \in Procs : alive[p] => info.started[p] # "counted"                         \* no process start half-way
              /\ \A j \in Jobs : alive[Owner[j]] => jobst[j] \notin {"holding", "aborting", "running", "ended"}   \* live schedulers have released
              /\ \A p \in Procs, j \in Jobs : ~ENABLED ReclaimDecide(p, j) /\ j \notin reclaiming[p]
 Informed == Quiescent => \A j \in Jobs : (jobst[j] = "submitted" /\ alive[Owner[j]] /\ Req[j] <= info.total - Sum(Holders)) => dstat[j] = "OK"
